@@ -137,6 +137,13 @@ pub fn gen_project(rng: &mut Rng, clean_only: bool, with_tests: bool) -> Generat
         }
     }
     let mut toml = TomlOpts::default();
+    if units.iter().any(|u| u.name == "pathdep") {
+        files.insert(
+            "../dep_a/Veryl.toml".to_string(),
+            "[project]\nname = \"dep_a\"\nversion = \"0.1.0\"\n\n[build]\nclock_type = \"posedge\"\nreset_type = \"async_low\"\nsources = [\"src\"]\ntarget = {type = \"directory\", path = \"target\"}\nexclude_std = true\n".to_string(),
+        );
+        toml.deps.push(("dep_a".to_string(), "../dep_a".to_string()));
+    }
     if rng.chance(1, 4) {
         toml.target = rng.pick(&["source", "bundle"]).to_string();
     }
@@ -250,6 +257,10 @@ fn current_path(files: &BTreeMap<String, String>, slot: &Slot) -> Option<String>
 
 /// Output (.sv) path, relative to the project root, of a source path.
 pub fn output_of(toml: &TomlOpts, src: &str) -> String {
+    if let Some(rest) = src.strip_prefix("../dep_a/src/") {
+        // outputs of a path dependency are emitted under dependencies/<name>/
+        return format!("dependencies/dep_a/src/{}.sv", rest.trim_end_matches(".veryl"));
+    }
     let stem = src.trim_start_matches("src/").trim_end_matches(".veryl");
     match toml.target.as_str() {
         "source" => format!("src/{stem}.sv"),
